@@ -353,10 +353,20 @@ func (d Descriptor) OCIBlobDigest() (v1.Hash, error) {
 
 // GetData returns the data object associated with descriptor d.
 func (d Descriptor) GetData() ([]byte, error) {
-	b := make([]byte, d.raw.Size)
-	if _, err := io.ReadFull(d.GetReader(), b); err != nil {
+	// Read via io.ReadAll rather than allocating d.raw.Size bytes up front, so that memory use is
+	// bounded by the data actually present in the image.
+	b, err := io.ReadAll(d.GetReader())
+	if err != nil {
 		return nil, err
 	}
+
+	if int64(len(b)) != d.raw.Size {
+		if len(b) == 0 {
+			return nil, io.EOF
+		}
+		return nil, io.ErrUnexpectedEOF
+	}
+
 	return b, nil
 }
 
